@@ -396,6 +396,16 @@ theorem others_untouched {C : Type} [DecidableEq C] (cfg : Cfg) (cks : J → C) 
 theorem no_filter_whole_object (cfg : Cfg) (obj : J) (h : cfg.filter = none) : project cfg obj = some obj := by
   simp [project, h]
 
+/-- With a single jq expression (one output) the projection is the jq result itself, whatever its
+type — object, array, scalar or null (the repaired `ApplyFilterValue`). -/
+theorem single_output_projection (cfg : Cfg) (f : Filter) (obj : J) (h : cfg.filter = some (.one f)) :
+    project cfg obj = f.eval obj := by
+  simp only [project, h, Prog.eval, Prog.outputs]
+  cases f.eval obj <;> rfl
+
+example : project { exCfg with filter := some (.one (.mkArr [.path ["spec", "replicas"], .path ["nope"]])) } (exObj 4 0)
+    = some (.arr [.num 4, .null]) := by decide
+
 /-- **C08 default_types.** `WithEventTypes(nil)` (table regenerated from monitor_config.go and
 types.go on every run) is the documented default: all three event types. -/
 theorem default_types : ShellOp.Facts.c08DefaultEventTypes = ["Added", "Modified", "Deleted"]
